@@ -289,6 +289,12 @@ def body_adjoint(which):
             fi = as_num(f_lib(A.astype(np.int64)))
             ctx.close("adjoint of an int64-typed matrix = adjoint of the same matrix as float",
                       fi, f_ref(A), rtol=0, atol=1e-10 * cA * cA * n)
+            # ... or in an array of a narrower integer type (entries are small)
+            for it in (np.int32, np.int16):
+                if np.all(np.abs(A) < 100):
+                    ctx.close("adjoint of an %s-typed matrix = adjoint of the same matrix as "
+                              "float" % np.dtype(it).name, as_num(f_lib(A.astype(it))),
+                              f_ref(A), rtol=0, atol=1e-10 * cA * cA * n)
         if case["give_inv"]:
             ctx.label("inv-given")
             fa = f_lib(A.copy(), inv=np.linalg.inv(A))
